@@ -17,10 +17,10 @@ if len(sys.argv) > 2 and sys.argv[1] == '--import':
             continue
         red = {
             'property': d['property'],
-            'comment_keys': [{'key': k['key'], 'n': k['n'], 'eg': k['eg']} for k in d['comment_keys']],
+            'comment_keys': [{'key': k['key'], 'n': k['n'], 'eg': k['eg'], 'repro': (k.get('repro') if k.get('repro') and len(k['repro'].get('input') or '') <= 400 else None)} for k in d['comment_keys']],
             'repairs': d['repairs'],
             'leftovers': [{'sha': l['sha'], 'origin': l['origin'], 'oracle': l.get('oracle', ''), 'detail': l['detail'][:160],
-                           'input': l['input'] if len(l['input']) <= 200 else None} for l in d['leftovers']],
+                           'input': l['input'] if len(l['input']) <= 400 else None, 'cfg': l.get('cfg'), 'extra': l.get('extra')} for l in d['leftovers']],
         }
         json.dump(red, open(f"{TRI}/{d['property']}.json", 'w'), indent=0, ensure_ascii=False)
         print('imported', d['property'], len(red['comment_keys']), 'keys', len(red['leftovers']), 'leftovers')
@@ -98,6 +98,9 @@ classes = [
  ('F15-comment-only-content-block', ['C01', 'C02', 'C03', 'C08', 'C13'], 'repair', {'repair': 'comment_only_content'},
   'a content block holding only a comment gains blanks: `x[/* c */]` -> `x[ /* c */ ]` (empty content becomes a space)',
   [repro('C01', 'N(parse(x))==N(parse(y))', '#x[/* c */]', cfg(0))]),
+ ('F16-forced-break-in-break-suppressed-context', ['C03', 'C08'], 'repair', {'repair': 'explode_multi_stmt_blocks'},
+  'a code block with several statements written on one line inside a prose line or math (`text #f({ let x = 1; x }) more`) must be broken by the first pass; the second pass then sees a multi-line node, lifts the break suppression and lays the surrounding call out differently (non-convergence)',
+  [repro('C03', 'fmt(fmt(x))==fmt(x)', 'text #f(args: { let self = 6pt; 1pt }) more', cfg(0))]),
  ('F13-stack-overflow-deep-nesting', ['C05'], 'stack_overflow_depth', {'min_depth': 4096},
   'nesting of depth >= 4096 that the parser still accepts overflows the 8 MiB main-thread stack in the recursive conversion',
   []),
@@ -132,13 +135,15 @@ for f in sorted(glob.glob(f'{TRI}/C*.json')):
         eg = max(d['comment_keys'], key=lambda k: k['n'])
         findings.append({'id': f'K-{p}-comment-positions', 'status': 'open', 'properties': [p],
                          'what': f"{WHAT_KEYS.get(p, 'comment-position dependent defect')}; {len(keys)} position keys (shape|parent|grandparent|prev|next), e.g. {eg['key']} as in {eg['eg'][:70]!r}",
-                         'classifier': 'comment_key', 'params': {'keys': keys}, 'repros': []})
+                         'classifier': 'comment_key', 'params': {'keys': keys},
+                         'repros': [k['repro'] for k in sorted(d['comment_keys'], key=lambda k: -k['n']) if k.get('repro')][:3]})
     shas = sorted({l['sha'] for l in d['leftovers']})
     if shas:
         egs = [l for l in d['leftovers'] if l.get('input')][:3]
         findings.append({'id': f'X-{p}-listed-inputs', 'status': 'open', 'properties': [p],
                          'what': f"{len(shas)} specific inputs of the closed pools (identified by SHA-256 prefix of the input text) that violate {p} for causes not covered by a class finding, e.g. " + '; '.join(repr(e['input'][:60]) + ' — ' + e['detail'][:80] for e in egs),
-                         'classifier': 'input_list', 'params': {'inputs': shas}, 'repros': []})
+                         'classifier': 'input_list', 'params': {'inputs': shas},
+                         'repros': [{'property': p, 'oracle': e.get('oracle', ''), 'input': e['input'], 'cfg': e.get('cfg'), 'extra': e.get('extra'), 'origin': e['origin'], 'detail': ''} for e in egs]})
 
 json.dump({'findings': findings}, open(f'{VERIF}/known_findings.json', 'w'), indent=1, ensure_ascii=False)
 print('wrote', len(findings), 'findings:', sum(1 for f in findings if f['status'] == 'fixed'), 'fixed,', sum(1 for f in findings if f['status'] == 'open'), 'open')
